@@ -11,6 +11,17 @@ NOTE = ("Trusted base: the frozen effect / identity tables in kdverif (one reaso
         "the value-level behaviour of the property (see DESIGN.md section 4, 'N' lists).")
 
 CLAIMS = {
+    "C02": ("index-space typing of the layer accessors, translation summaries compared between siblings, chain-continuation analysis",
+            "Decides: KDSubset calls the wrapped accessor with self.indices[idx] and re-indexes the wrapped bulk result by "
+            "self.indices in subset order (also the sampler weights); KDConcatDataset takes (part, local) from "
+            "_to_concat_idx(idx) or the balanced round-robin with the modulus over the same part, looks the accessor up on "
+            "that part, concatenates bulk results over all parts in order; __getattr__ routes getitem_*/getall_* to the "
+            "matching handler; _to_concat_idx, _InterleavedConcatDataset.__getitem__ and the installed torch "
+            "ConcatDataset.__getitem__ have one translation summary (negative, bisect_right, local offset); each of the 3 "
+            "layer classes continues each of the 11 root-semantics members of KDDataset into the wrapped dataset(s) on every "
+            "return / path (or resolves it through a delegating __getattr__), overriding subclasses keep the chain; the bulk "
+            "helpers' fast / slow paths call getall_<item> / getitem_<item>(i) for i in range(len) and return what they "
+            "loaded. Composed maps as values are not decided."),
     "C16": ("interception / index-space / dependence-set agreement between getitem_class and getall_class, borrowed-value mutation",
             "Decides for the 13 KDWrapper subclasses defining getitem_class: a wrapper that rewrites labels per sample also "
             "provides getall_class (else __getattr__ serves stale labels; 3 representation-changing wrappers exempt by "
